@@ -1136,11 +1136,10 @@ Definition agrees (t : trace) : bool :=
   texts_eqb (render (tr_ast t)) (tr_texts t)
   && match compile (tr_ast t) Go, tr_out t with
      | Some d, Compiled obs sys_unchanged deterministic => dump_match acl_eqb d obs && sys_unchanged && deterministic
-     | None, Rejected panicked =>
-       (* a well-formed schema is refused only through the unique-name collision, and that is a
-          panic; for a malformed one the model predicts the refusal, not whether the first thing the
-          compiler trips over is an error or that panic *)
-       negb (wf (tr_ast t)) || panicked
+     | None, Rejected _ =>
+       (* the model predicts the refusal, not whether the compiler reports an error or panics (the
+          builder's panics are recovered in buildAppDefs since 2c1d463a7; C16 observes panics) *)
+       true
      | _, _ => false
      end.
 
